@@ -109,6 +109,14 @@ func runC08(c *Ctx) {
 		var dispatch []*ssa.Call
 		bad := ""
 		var badAt ssa.Instruction
+		// the message is the one this read took off the wire: on the way up from ReadMessage every function hands
+		// back the callee's result (or nil), never a message kept in a field, slice or map — a buffer between
+		// reading and dispatching is where arrival order gets lost
+		if why, at := c.straightFromRead(msg, loopFn, rm, 0); why != "" {
+			r.Fail("R1", fname(loopFn)+":message-straight-from-read", c.pos(at), why)
+		} else {
+			r.Ok("R1", fname(loopFn)+":message-straight-from-read", c.pos(rc), "the dispatched message is the result of the read chain down to ReadMessage, passed up unchanged")
+		}
 		// the uses of the message, also where it is first merged with the message of another read of the loop
 		var uses []ssa.Instruction
 		{
@@ -517,6 +525,102 @@ func derivesFromCall(v ssa.Value, call *ssa.Call) bool {
 
 // errorEdgeBlocks returns the blocks entered on the `err != nil` edge of a call returning
 // (T, error): blocks dominated by the true edge of `if err != nil` (or false edge of err == nil).
+// straightFromRead: v (a *Message in fn) is nil, or the message result of a call that leads to ReadMessage and
+// itself returns only such values, possibly passed through helpers that hand an argument back. Returns a reason
+// and the offending instruction when v can come from somewhere else.
+func (c *Ctx) straightFromRead(v ssa.Value, fn *ssa.Function, rm *ssa.Function, depth int) (string, ssa.Instruction) {
+	at := func() ssa.Instruction {
+		if in, ok := v.(ssa.Instruction); ok {
+			return in
+		}
+		if len(fn.Blocks) > 0 {
+			return fn.Blocks[0].Instrs[0]
+		}
+		return nil
+	}
+	if depth > 6 {
+		return "cannot follow the message back to the read (call chain too deep)", at()
+	}
+	v = flow.PeelNoConvert(v)
+	if flow.IsNilConst(v) {
+		return "", nil
+	}
+	switch x := v.(type) {
+	case *ssa.Phi:
+		for _, e := range x.Edges {
+			if e == ssa.Value(x) {
+				continue
+			}
+			if why, a := c.straightFromRead(e, fn, rm, depth+1); why != "" {
+				return why, a
+			}
+		}
+		return "", nil
+	case *ssa.UnOp:
+		if x.Op == token.MUL {
+			if _, isAl := x.X.(*ssa.Alloc); isAl {
+				srcs := flow.SpillSources(x)
+				if len(srcs) == 0 {
+					return "the message handed to the dispatch is read from a local the analysis cannot resolve", x
+				}
+				for _, s := range srcs {
+					if why, a := c.straightFromRead(s, fn, rm, depth+1); why != "" {
+						return why, a
+					}
+				}
+				return "", nil
+			}
+			return "the message handed to the dispatch is taken out of storage (" + short(x.X.String(), 40) + ") instead of being the result of the read: messages kept between reading and dispatching can be handed out in another order than they arrived", x
+		}
+	case *ssa.Extract, *ssa.Call:
+		idx := 0
+		var call *ssa.Call
+		if ex, ok := x.(*ssa.Extract); ok {
+			idx = ex.Index
+			call, _ = ex.Tuple.(*ssa.Call)
+		} else {
+			call = x.(*ssa.Call)
+		}
+		if call == nil {
+			break
+		}
+		h := flow.StaticCallee(call)
+		if h == nil || h.Blocks == nil {
+			return "the message handed to the dispatch is the result of a dynamic call, not of the read chain", call
+		}
+		if h == rm {
+			return "", nil
+		}
+		rvs := flow.ReturnValues(h, idx)
+		if c.reachesFunc(h, rm, map[*ssa.Function]bool{}) {
+			for _, rv := range rvs {
+				if why, a := c.straightFromRead(rv, h, rm, depth+1); why != "" {
+					return why, a
+				}
+			}
+			return "", nil
+		}
+		// a helper off the read chain: it may only hand an argument back (or nil)
+		for _, rv := range rvs {
+			rv = flow.PeelNoConvert(rv)
+			if flow.IsNilConst(rv) {
+				continue
+			}
+			p, isP := rv.(*ssa.Parameter)
+			if !isP || p.Parent() != h {
+				return "the message handed to the dispatch is produced by " + h.Name() + ", which is not on the read chain", call
+			}
+			if i := paramIndex(h, p); i < len(call.Call.Args) {
+				if why, a := c.straightFromRead(call.Call.Args[i], fn, rm, depth+1); why != "" {
+					return why, a
+				}
+			}
+		}
+		return "", nil
+	}
+	return "the message handed to the dispatch (" + short(v.String(), 40) + ") is not the result of the read chain", at()
+}
+
 func errorEdgeBlocks(call *ssa.Call) map[*ssa.BasicBlock]bool {
 	out := map[*ssa.BasicBlock]bool{}
 	errv := errorResult(call)
